@@ -98,8 +98,13 @@ func (t *DestinationTask) Do(ctx context.Context, batch *Batch) error {
 		return cerrors.Errorf("failed to write %d records to destination: %w", len(positions), err)
 	}
 
+	// Keep reading until every written record has its ack. The number of
+	// responses says nothing: a response may carry several acks or none at
+	// all, and counting an empty response as progress would end the loop
+	// early and leave records flagged as acked (the default) that the
+	// destination never confirmed.
 	ackCount := 0
-	for range len(positions) {
+	for ackCount < len(positions) {
 		acks, err := t.destination.Ack(ctx)
 		if err != nil {
 			return cerrors.Errorf("failed to receive acks for %d records from destination: %w", len(positions), err)
@@ -112,9 +117,6 @@ func (t *DestinationTask) Do(ctx context.Context, batch *Batch) error {
 		t.markBatchRecords(batch, ackCount, acks)
 
 		ackCount += len(acks)
-		if ackCount >= len(positions) {
-			break
-		}
 	}
 
 	return nil
